@@ -73,6 +73,8 @@ pub fn c05_inits() -> Vec<Init> {
         "A: 1\n\nB: 2",
         "A: 1\n x",
         "A: 1\n\n# t",
+        "A: 1\n\nB:",
+        "A: 1\n\nB: 2\n# r",
         "# only a comment\n",
         "\n",
     ]
@@ -107,9 +109,16 @@ pub fn layout_inits(which: Which, t: Tier) -> Vec<Init> {
     for (sk, k) in plans {
         let m = menus(sk);
         let mut emit = |v: &[usize]| {
-            if let Some(d) = render(sk, v) {
-                if deb822_lossless::Deb822::from_str(&d.text).is_ok() && seen.insert(d.text.clone()) {
-                    out.push(Init::Text(d.text));
+            // the final newline is a free dimension (not counted as a deviation): many end-of-document defects need
+            // "no final newline" together with one other feature
+            let mut w = v.to_vec();
+            let last = w.len() - 1;
+            for fin in 0..2 {
+                w[last] = fin;
+                if let Some(d) = render(sk, &w) {
+                    if deb822_lossless::Deb822::from_str(&d.text).is_ok() && seen.insert(d.text.clone()) {
+                        out.push(Init::Text(d.text));
+                    }
                 }
             }
         };
